@@ -15,6 +15,7 @@ import (
 	"time"
 
 	"github.com/AdguardTeam/AdGuardHome/internal/aghtest"
+	"github.com/AdguardTeam/golibs/cache"
 	"github.com/miekg/dns"
 	"golang.org/x/net/publicsuffix"
 )
@@ -35,7 +36,51 @@ type c19Step struct {
 	Evict []string `json:"evict,omitempty"`
 }
 
+// c19SetEv is one cache.Set made during a Check.
+type c19SetEv struct {
+	key     string
+	evicted []string
+	stored  bool
+}
+
+// c19Cache wraps the golibs cache of the Checker (same configuration as
+// hashprefix.New gives it, plus OnDelete) and records what every Set did.
+type c19Cache struct {
+	inner   cache.Cache
+	maxSize uint
+	events  []c19SetEv
+	cur     *c19SetEv
+	stray   int
+}
+
+func c19NewCache(maxSize uint) *c19Cache {
+	w := &c19Cache{maxSize: maxSize}
+	w.inner = cache.New(cache.Config{EnableLRU: true, MaxSize: maxSize, OnDelete: func(k, _ []byte) {
+		if w.cur != nil {
+			w.cur.evicted = append(w.cur.evicted, string(k))
+		} else {
+			w.stray++
+		}
+	}})
+	return w
+}
+
+func (w *c19Cache) Set(k, v []byte) bool {
+	ev := c19SetEv{key: string(k), stored: w.maxSize == 0 || uint(len(k)+len(v)) <= w.maxSize}
+	w.cur = &ev
+	r := w.inner.Set(k, v)
+	w.cur = nil
+	w.events = append(w.events, ev)
+	return r
+}
+func (w *c19Cache) Get(k []byte) []byte { return w.inner.Get(k) }
+func (w *c19Cache) Del(k []byte)        { w.inner.Del(k) }
+func (w *c19Cache) Clear()              { w.inner.Clear() }
+func (w *c19Cache) Stats() cache.Stats  { return w.inner.Stats() }
+
 type c19Hist struct {
+	// CacheSize is Config.CacheSize in bytes; 0 = unlimited.
+	CacheSize uint   `json:"cache_size"`
 	Suffix string    `json:"suffix"`
 	DB     []string  `json:"db"`
 	Steps  []c19Step `json:"steps"`
@@ -205,6 +250,10 @@ func c19Mangle(r *vfRand, h [32]byte) (s string, valid bool) {
 
 func (w *c19World) history(r *vfRand, nOps int) (h c19Hist) {
 	h.Suffix = vfPick(r, []string{"sb.dns.adguard.com.", "pc.dns.adguard.com.", "x."})
+	if r.Chance(1, 4) {
+		// A cache that cannot hold one answer, or only just.
+		h.CacheSize = vfPick(r, []uint{45, 60, 100, 130, 200, 300})
+	}
 	nHosts := int(r.Range(1, 4))
 	hosts := make([]string, 0, nHosts)
 	for i := 0; i < nHosts; i++ {
@@ -329,8 +378,10 @@ func c19Run(out *vfOut, h c19Hist, forced []string) {
 		ServiceName: "verif",
 		TXTSuffix:   h.Suffix,
 		CacheTime:   c19CacheTimeSec * time.Second,
-		CacheSize:   0,
+		CacheSize:   h.CacheSize,
 	})
+	wc := c19NewCache(h.CacheSize)
+	c.cache = wc
 
 	// Valid database hashes, for the monitor.
 	dbValid := map[string]bool{}
@@ -411,10 +462,9 @@ func c19Run(out *vfOut, h c19Hist, forced []string) {
 				if data == nil {
 					continue
 				}
-				nd := append([]byte(nil), data...)
-				exp := int64(binary.BigEndian.Uint64(nd))
-				binary.BigEndian.PutUint64(nd, uint64(exp-st.Secs))
-				c.cache.Set([]byte(p), nd)
+				// In place: a Set could evict other entries.
+				exp := int64(binary.BigEndian.Uint64(data))
+				binary.BigEndian.PutUint64(data, uint64(exp-st.Secs))
 			}
 			sinceAdvance = true
 			vnow += st.Secs
@@ -430,6 +480,7 @@ func c19Run(out *vfOut, h c19Hist, forced []string) {
 			ops = append(ops, vfApp("CEvict", vfList("list N", ps)))
 		case "check":
 			asked, lastQ, failNow = false, "", st.Fail
+			wc.events = nil
 			var (
 				blocked bool
 				err     error
@@ -511,12 +562,19 @@ func c19Run(out *vfOut, h c19Hist, forced []string) {
 					}
 				}
 			}
-			if asked && err == nil && !st.Fail {
-				for _, l := range strings.Split(strings.TrimSuffix(strings.TrimSuffix(lastQ, h.Suffix), "."), ".") {
-					if len(l) >= 4 {
-						fetched[l[:4]] = vnow
-					}
+			for _, ev := range wc.events {
+				for _, k := range ev.evicted {
+					delete(fetched, hex.EncodeToString([]byte(k)))
 				}
+				if ev.stored {
+					fetched[hex.EncodeToString([]byte(ev.key))] = vnow
+				}
+				if len(ev.evicted) > 0 || !ev.stored {
+					classes["eviction-inside-store"] = true
+				}
+			}
+			if wc.stray > 0 {
+				fail("C19/harness-stray-eviction", "the cache evicted entries outside a Set")
 			}
 			// Classes.
 			if err == nil {
@@ -590,7 +648,16 @@ func c19Run(out *vfOut, h c19Hist, forced []string) {
 					classes["mixed-case"] = true
 				}
 			}
+			var sets []string
+			for _, ev := range wc.events {
+				var evs []string
+				for _, k := range ev.evicted {
+					evs = append(evs, vfBytes(k))
+				}
+				sets = append(sets, vfPair(vfPair(vfBytes(ev.key), vfList("list N", evs)), vfBool(ev.stored)))
+			}
 			ops = append(ops, vfApp("CCheck", vfBytes(st.Host), vfBool(st.Fail),
+				vfList("list N * list (list N) * bool", sets),
 				vfBool(blocked), vfBool(err != nil), vfOpt("list N", asked, vfBytes(lastQ)), dump()))
 		}
 	}
@@ -675,6 +742,14 @@ func TestVerifC19(t *testing.T) {
 			Steps: []c19Step{chk("a.b.c.d.e.f.com"), chk("x.blogspot.com"), chk("Evil.COM"), chk("co.uk"), chk("com"),
 				chk("x.pvt.k12.ma.us"), chk("y.x.pvt.k12.ma.us"), chk("foo.ck"), chk("a.foo.ck"), chk("www.ck"), chk("mail.lan"),
 				chk(""), chk("a."), chk(".com"), chk("a..com"), chk("."), chk("a.b.c.d.")}},
+	}
+	// The same answers into caches that cannot hold them: three prefixes per
+	// answer, entries of 42 bytes.
+	for _, size := range []uint{45, 60, 100, 130} {
+		prelude = append(prelude, c19Hist{CacheSize: size, Suffix: "sb.dns.adguard.com.",
+			DB: []string{hx("a.b.evil.com"), hx("b.evil.com"), hx("evil.com")},
+			Steps: []c19Step{chk("a.b.evil.com"), chk("a.b.evil.com"), chk("a.b.evil.com"), chk("evil.com"), chk("b.evil.com"),
+				adv(3700), chk("a.b.evil.com"), chk("www.good.org"), chk("evil.com")}})
 	}
 	for _, h := range prelude {
 		c19Run(out, h, nil)
